@@ -458,7 +458,13 @@ impl DeconstructedPat {
                 fields = match data {
                     None => vec![],
                     Some(PatVariantData::Positional(pat)) => {
-                        vec![DeconstructedPat::from_ast_pat(statics, pat)]
+                        let field = DeconstructedPat::from_ast_pat(statics, pat);
+                        // a void payload takes no column in the matrix (see Constructor::arity)
+                        if matches!(field.ty, Type::Void) {
+                            vec![]
+                        } else {
+                            vec![field]
+                        }
                     }
                     Some(PatVariantData::Named(named)) => {
                         let variant_def = &enum_def.variants[*variant];
